@@ -192,6 +192,12 @@ var templates = []func(u string) string{
 		return "rec(make([]float32, 1))\nrec(make(float32))\nmake(type uint32, w0)\nrec(make([]uint32, 1))\nfunc() { make(type uint, w0); rec(make([]uint, 1)) }()\nrec(make([]uint, 1))\nrec(make(map[string]float32))"
 	},
 	func(u string) string {
+		// an error value belongs to the run that raised it: what a catch block (or the host) writes into it stays there
+		return "try { [1][base] } catch e" + u + " { e" + u + ".Message = hostUp(e" + u + ".Message); rec(e" + u + ".Message) }\n" +
+			"func w" + u + "() { try { 7 % (base - base) } catch g" + u + " { g" + u + ".Message = \"w:\" + g" + u + ".Message; throw g" + u + " } }\ntry { w" + u + "() } catch f" + u + " { rec(f" + u + ".Message) }\n" +
+			"try { throw \"t\" + base } catch h" + u + " { h" + u + ".Message = \"x\"; rec(h" + u + ".Message) }"
+	},
+	func(u string) string {
 		// one member expression, receivers of one type held in different ways; the order differs between configurations
 		a := "b" + u + " = make(bb" + u + ".Buffer)\nb" + u + ".WriteString(hostUp(\"w\"))\nrec(b" + u + ".String())\nrec(b" + u + ".Len())"
 		b := "for c" + u + " in [make(bb" + u + ".Buffer)] { c" + u + ".WriteString(\"x\"); rec(c" + u + ".String()) }"
@@ -519,6 +525,10 @@ func execute(stmt ast.Stmt, i int, ctx context.Context, optMode ...int) *runOut 
 		out.val = render(v)
 		if err != nil {
 			out.err = err.Error()
+			if ve, ok := err.(*vm.Error); ok {
+				// the host owns the error it was handed: annotating it must not show up in any other run
+				ve.Message = "annotated by the host of environment " + strconv.Itoa(i) + ": " + ve.Message
+			}
 		}
 	}()
 	out.binds = bindings(e)
